@@ -53,9 +53,15 @@ def model_check(ctx):
         runs += [("MultiSnap_mc_unreduced.cfg", False), ("MultiSnap_mc_full.cfg", False),
                  ("MultiSnap_mc_3snaps.cfg", False), ("MultiSnap_mc_2ops.cfg", False)]
     total = {"states": 0, "transitions": 0, "coverage": {}, "constants": {}, "wall": 0.0, "depth": 0, "runs": []}
-    for cfg, cov in runs:
-        res = tlc.run(ctx, "MultiSnapMC", cfg, coverage=cov, workers=ctx.pick(8, 16), timeout=ctx.pick(1200, 3000),
-                      heap=ctx.pick("6g", "12g"), name="mc_" + cfg[:-4])
+
+    def one(run):
+        cfg, cov = run
+        return run, tlc.run(ctx, "MultiSnapMC", cfg, coverage=cov, workers=ctx.pick(6, 5), timeout=ctx.pick(1500, 3400),
+                            heap=ctx.pick("6g", "8g"), name="mc_" + cfg[:-4])
+    # the configurations are independent: run them side by side (TLC does not scale linearly with workers)
+    with concurrent.futures.ThreadPoolExecutor(max_workers=ctx.pick(1, 3)) as ex:
+        results = list(ex.map(one, runs))
+    for (cfg, cov), res in results:
         if not res.ok:
             raise InfraError("spec-level counterexample in %s (%s): the composed spec violates %s; triage spec vs code" % (
                 cfg, res.summary(), res.name))
@@ -155,8 +161,9 @@ def directed(ctx):
             hs.append(hist("d-revctx-k%d" % k, rv + [multi("update-many", [(S1, 3), (S2, 1)], txn=(k != 12), faults=[(1 + k % 2, k)])]))
     else:
         hs.append(hist("d-revctx-ps", rv + [multi("update-many", [(S1, 3), (S2, 1)])], enum=True, enum_ops=["link-snap"]))
-        hs.append(hist("d-revctx-tx", rv + [multi("update-many", [(S1, 3), (S2, 1)], txn=True)], enum=True, enum_ops=["link-snap"]))
-        hs.append(hist("d-3upd-tx-enum", three + [multi("update-many", [(S1, 2), (S2, 3), (S3, 2)], txn=True)], enum=True))
+        hs.append(hist("d-revctx-tx", rv + [multi("update-many", [(S1, 3), (S2, 1)], txn=True)], enum=True, enum_ops=["link-snap"],
+                       chain=True))
+        hs.append(hist("d-3upd-tx-enum", three + [multi("update-many", [(S1, 2), (S2, 3), (S3, 2)], txn=True)], enum=True, chain=True))
         hs.append(hist("d-3upd-ps-enum", three + [multi("update-many", [(S1, 2), (S2, 3), (S3, 2)])], on_classic=True, enum=True))
     return hs
 
@@ -584,10 +591,9 @@ def _distinct_real_states(log):
 
 def run(ctx):
     conf_only = bool(os.environ.get("VERIF_E01_CONF_ONLY"))     # mutation runs: skip the TLC runs that do not depend on /repo
-    if conf_only:
-        mc = {"states": 1, "transitions": 1, "coverage": {}, "constants": {}, "wall": 0.0, "depth": 0, "runs": []}
-    else:
-        mc = model_check(ctx)
+    # the design part (TLC on the spec) does not depend on /repo: it runs beside the build and the driver
+    pool = concurrent.futures.ThreadPoolExecutor(max_workers=1)
+    mc_future = None if conf_only else pool.submit(model_check, ctx)
     tb = build(ctx)
 
     if ctx.replay:
@@ -597,11 +603,16 @@ def run(ctx):
         if not histories:
             raise InfraError("replay file has no histories")
     else:
-        histories = directed(ctx) + random_histories(ctx, ctx.pick(8, 120))
+        histories = directed(ctx) + random_histories(ctx, ctx.pick(8, 60))
     log, stats = run_harness(ctx, tb, histories, "all")
     ctx.log("driver: %d histories, %d events, %d multi-snap changes, %d with faults in %.0fs" % (
         stats["histories"], stats["events"], stats["changes"], stats["faults"], stats["wall"]))
 
+    if mc_future is None:
+        mc = {"states": 1, "transitions": 1, "coverage": {}, "constants": {}, "wall": 0.0, "depth": 0, "runs": []}
+    else:
+        mc = mc_future.result()
+    pool.shutdown()
     violations, counts = direct_check(log)
     ncases, tviol, rejections = validate(ctx, log, "all", ctx.pick(3, 6))
     violations += tviol
